@@ -344,14 +344,21 @@ def step (_ : Unit) (toks : List String) : Unit × String :=
       let ops ← (splitChar ops ',').mapM (fun t =>
         match t.toList with
         | 'i' :: r => (String.ofList r).toNat?.map Dc.Op.inst
-        | 'r' :: r => (String.ofList r).toNat?.map Dc.Op.recv
+        | 'r' :: r =>
+          match splitChar (String.ofList r) ':' with
+          | [c, fm] => do
+            let c ← c.toNat?
+            let fm := if fm == "-" then [] else (splitChar fm '.').map (fun x => x.toNat?)
+            some (Dc.Op.recv c fm)
+          | [c] => c.toNat?.map (fun c => Dc.Op.recv c [])
+          | _ => none
         | _ => none)
       let all : Nat → List String := fun c => ns.getD c []
       let parent : Nat → Option Nat := fun c => (ps.getD c none)
       let fuel := ps.length + 1
       let st0 := Dc.run all parent fuel ops.dropLast
       let res := match ops.getLast? with
-        | some (.recv c) => (match Dc.recvResult all parent st0 fuel c with
+        | some (.recv c fm) => (match Dc.recvResult all parent st0 fuel c fm with
             | some a => s!"cls{a}"
             | none => "raise")
         | _ => "inst"
@@ -377,9 +384,9 @@ def step (_ : Unit) (toks : List String) : Unit × String :=
       some (match Reg.lookup (w.tbl id) name with
         | some f => showFmt f
         | none => "none")
-    | ["dccont", k] => do
-      let c ← Dc.Container.ofString k
-      some (Dc.decodedContainer c).toString
+    | ["dcrule", chain] => do
+      let anns ← (splitChar chain ',').mapM Dc.Container.ofString
+      some (Dc.applyRule (Dc.chainRule none anns)).toString
     | ["cell", "frombin", pkt] => do
       let pkt ← ofHex? pkt
       some (match Old.cellFromBin pkt with
